@@ -414,5 +414,37 @@ func init() {
 			})
 		}
 		fmt.Fprintf(&e.out, "def collectAllPodMetricsSkipsEmptyResult : Bool := %v\n", allSkipsEmpty)
+
+		// --- GetRequestTypeAndValueFromPod (Model/C11Containers.lean): one loop over Spec.Containers, one over
+		//     Spec.InitContainers whose whole body is `if util.IsSidecarContainer(container) {…}`, both clamping `<= 0`
+		loops, sidecarOnly, clamps := 0, false, 0
+		if fd := need(ud, "", "GetRequestTypeAndValueFromPod"); fd != nil {
+			ast.Inspect(fd.Body, func(n ast.Node) bool {
+				switch v := n.(type) {
+				case *ast.RangeStmt:
+					x := norm(v.X)
+					switch {
+					case strings.HasSuffix(x, ".Spec.Containers"):
+						loops += 1
+					case strings.HasSuffix(x, ".Spec.InitContainers"):
+						loops += 10
+						if len(v.Body.List) == 1 {
+							if is, ok := v.Body.List[0].(*ast.IfStmt); ok && is.Else == nil && is.Init == nil {
+								if c, ok := is.Cond.(*ast.CallExpr); ok && strings.HasSuffix(norm(c.Fun), "IsSidecarContainer") {
+									sidecarOnly = true
+								}
+							}
+						}
+					}
+				case *ast.IfStmt:
+					if b, ok := v.Cond.(*ast.BinaryExpr); ok && b.Op == token.LEQ && norm(b.Y) == "0" {
+						clamps++
+					}
+				}
+				return true
+			})
+		}
+		fmt.Fprintf(&e.out, "def requestLoopsContainersOnceInitOnce : Bool := %v\ndef requestInitLoopSidecarOnly : Bool := %v\ndef requestClampsNonPositive : Nat := %d\n",
+			loops == 11, sidecarOnly, clamps)
 	}
 }
